@@ -121,7 +121,8 @@ def relayout(lines, rng, use_include, tmpdir):
         if rng.random() < 0.2:
             out.append(rng.choice(["; a comment", "  ; indented comment with 'quote and /* inside", ";"]))
         if rng.random() < 0.12 and depth == 0:
-            out.append(rng.choice(["/* block comment */", "/* a\n   multi-line\n   comment */"]))
+            out.append(rng.choice(["/* block comment */", "/* a\n   multi-line\n   comment */", "/* doc **/", "/** doc **/", "/***/", "/**/", "/**** banner ****/", "/* a * b / c ** d */",
+                                   "/* \u00e9t\u00e9 ; 'quote' */"]))
         l = line
         if rng.random() < 0.5:
             l = t_case(l, rng)
